@@ -183,7 +183,6 @@ class SignaturePicklist:
 
             q = row.get(colkey)
 
-        assert q
         q = self.preprocess_fn(q)
 
         return q
